@@ -196,6 +196,31 @@ func (x *Exec) computeWriteSet(li *loopInfo) {
 
 // callWrites adds the static write footprint of a call.
 func (x *Exec) callWrites(c *ssa.CallCommon, li *loopInfo) {
+	for _, a := range c.Args {
+		// boxed addresses of locals (rows.Scan(&a, &b)): the callee may write them
+		if mi, ok := a.(*ssa.MakeInterface); ok {
+			if al, ok2 := rootAlloc(mi.X); ok2 {
+				li.cells[al] = true
+			}
+		}
+		if sl, ok := a.(*ssa.Slice); ok {
+			if arr, ok2 := sl.X.(*ssa.Alloc); ok2 && arr.Referrers() != nil {
+				for _, r := range *arr.Referrers() {
+					if ia, ok3 := r.(*ssa.IndexAddr); ok3 && ia.Referrers() != nil {
+						for _, r2 := range *ia.Referrers() {
+							if st, ok4 := r2.(*ssa.Store); ok4 {
+								if mi, ok5 := st.Val.(*ssa.MakeInterface); ok5 {
+									if al, ok6 := rootAlloc(mi.X); ok6 {
+										li.cells[al] = true
+									}
+								}
+							}
+						}
+					}
+				}
+			}
+		}
+	}
 	if b, ok := c.Value.(*ssa.Builtin); ok {
 		switch b.Name() {
 		case "delete":
